@@ -113,7 +113,8 @@ func runC11(w *worker) func(c c11Case) *Failure {
 		dest := newDest(b)
 		exp := core.FreshStruct(c.T)
 		verdict := core.RefDecode(c.T, c.Msg, exp)
-		n, err, f := fDecode(append([]byte{}, c.Msg...), dest.Interface())
+		in := append([]byte{}, c.Msg...)
+		n, err, f := fDecode(in, dest.Interface())
 		if f != nil {
 			return f
 		}
@@ -137,7 +138,14 @@ func runC11(w *worker) func(c c11Case) *Failure {
 				return failf("holder-or-value-differs", "after decode (got vs want) %s; msg %s", m, hexs(c.Msg))
 			}
 		}
-		// (2) re-encode: size counts the retained bytes, output re-emits them inside the same struct
+		// (2) re-encode: size counts the retained bytes, output re-emits them inside the same struct.
+		// The intermediary's receive buffer is reused for the next message in the meantime (unless the
+		// type declares nocopy fields somewhere): what was retained must not live in it
+		if !c.T.AnyNoCopy() {
+			for i := range in {
+				in[i] = 0xEE
+			}
+		}
 		out, f := encodeExact(dest.Interface())
 		if f != nil {
 			return f
